@@ -124,6 +124,21 @@ type c15Ann struct {
 	Spk  int
 	W    bool // withdraw
 	Spec simRouteSpec
+	RD   uint32   // != 0: VPNv4 route under RD 65000:<RD> (sent by a PE speaker)
+	RTs  []uint32 // route targets 65000:<n> of a VPNv4 route
+}
+
+type c15Vrf struct {
+	Name     string
+	RD       uint32 // 65000:<RD>
+	Imp, Exp []uint32
+}
+
+func (c *c15Case) peerFams(i int) []bgp.Family {
+	if c.famOv != nil {
+		return c.famOv[i]
+	}
+	return c.peers[i].families()
 }
 
 func (a c15Ann) String() string {
@@ -141,7 +156,11 @@ func (a c15Ann) String() string {
 	if a.Spec.LocalPref != nil {
 		lp = fmt.Sprint(*a.Spec.LocalPref)
 	}
-	return fmt.Sprintf("spk%d A %s as%v med=%s lp=%s o=%d comm=%v nh=%s", a.Spk, a.Spec.Prefix, a.Spec.ASPath, med, lp, a.Spec.Origin, cs, a.Spec.Nexthop)
+	vpn := ""
+	if a.RD != 0 {
+		vpn = fmt.Sprintf(" rd=65000:%d rt=%v", a.RD, a.RTs)
+	}
+	return fmt.Sprintf("spk%d A %s%s as%v med=%s lp=%s o=%d comm=%v nh=%s", a.Spk, a.Spec.Prefix, vpn, a.Spec.ASPath, med, lp, a.Spec.Origin, cs, a.Spec.Nexthop)
 }
 
 type c15Reset struct {
@@ -168,6 +187,8 @@ type c15Case struct {
 	always  bool // always-compare-med
 	wantRR  bool // the reset is a ROUTE-REFRESH (export change only)
 	guards  map[string]string // policy name -> neighbour address its statements are guarded by
+	vrfs    []c15Vrf          // VRF topology (c15_vrf_test.go): created before the peers
+	famOv   [][]bgp.Family    // per peer: address families of the session when not the plain IPv4(+IPv6) ones
 	stmtSeq int               // makes the names of statements added by changes unique
 	hist    bool              // multi-round history: the base only (no change, no reset, no racing)
 }
